@@ -45,7 +45,7 @@ FUNCTIONS = [
     "tf_pwa/model/model.py:FCN.nll_grad", "tf_pwa/model/model.py:FCN.__call__", "tf_pwa/model/model.py:FCN.get_params",
 ]
 ASSUMPTIONS = [
-    "minimiser contract: returns a point x* and fun = objective(x*) with objective(x*) <= objective(x0); inside the box for the minimisers that receive bounds (L-BFGS-B, iminuit); it may evaluate the objective anywhere, in any order, before and after x*",
+    "minimiser contract: returns a point x* with objective(x*) <= objective(x0) and fun = objective(x*) (except L-BFGS-B with success False, where scipy may report the value of another evaluated point: reproduced with scipy 1.18.1); result objects carry the fields scipy gives them (no hess_inv for CG / Nelder-Mead / Newton family, no jac for Nelder-Mead, jac None for a Newton-CG run that gives up at once); inside the box for the minimisers that receive bounds (L-BFGS-B, iminuit); it may evaluate the objective anywhere, in any order, before and after x*",
     "per-event densities are uninterpreted functions above the 1e-6 clip; starting point inside the bounds; iterates within |x| <= 100",
     "sympy expressions of Bound are evaluated at symbolic points by substitution into the expressions the real constructor built",
 ]
@@ -58,7 +58,7 @@ BOUNDS = {"a": (0.0, 2.0), "b": (0.5, None)}
 
 
 def bounds(tier):
-    return {"minimisers": ALL, "parameters": "a in (0,2), b >= 0.5, c free, d fixed, e tied to c", "N_data": 2, "N_mc": 2, "fits_per_session": [1, 2], "minimiser_success_flag": [True, False]}
+    return {"minimisers": ALL, "parameters": "a in (0,2), b >= 0.5, c free, d fixed, e tied to c", "N_data": 2, "N_mc": 2, "fits_per_session": [1, 2], "minimiser_success_flag": [True, False], "grad_scale": "1 and any value in (0.01, 100)"}
 
 
 def jobs(tier, seed):
@@ -66,6 +66,8 @@ def jobs(tier, seed):
     for m in ALL:
         out.append(("fit", m, True, 1))
         out.append(("fit", m, False, 1))
+    for m in SCIPY_PLAIN + ["L-BFGS-B", "Newton-CG", "iminuit"]:
+        out.append(("fit_scaled", m, True))
     for m1, m2 in (("BFGS", "BFGS"), ("Newton-CG", "BFGS"), ("BFGS", "Newton-CG"), ("iminuit", "BFGS"), ("L-BFGS-B", "BFGS")) + ((("Newton-CG", "Newton-CG"), ("trust-ncg-p", "L-BFGS-B"), ("BFGS", "iminuit")) if tier == "thorough" else ()):
         out.append(("fit2", m1, m2))
     return out
@@ -75,8 +77,20 @@ def jobs(tier, seed):
 
 
 class _Result(dict):
-    __getattr__ = dict.get
+    """like scipy.optimize.OptimizeResult: a missing field raises AttributeError"""
+
+    def __getattr__(self, name):
+        try:
+            return self[name]
+        except KeyError as e:
+            raise AttributeError(name) from e
+
     __setattr__ = dict.__setitem__
+
+
+# fields of the result object per method (scipy 1.18): CG and Nelder-Mead carry no hess_inv, Nelder-Mead no jac;
+# Newton-CG returns jac=None when it gives up before the first line search (status 3, success False)
+NO_HESS_INV = ("CG", "Nelder-Mead", "Newton-CG", "trust-krylov", "trust-ncg", "trust-exact")
 
 
 def _fresh_point(n, tag, lo_hi=None):
@@ -118,7 +132,7 @@ class Stub:
             box = [tuple(b) for b in bounds]
         f0 = self._val(fun(np.array(x0, dtype=object)))
         xm = _fresh_point(n, tag + "m", box)
-        fun(xm)
+        fm = fun(xm)
         if callback is not None:
             callback(xm)
         xf = _fresh_point(n, tag + "f", box)
@@ -132,7 +146,19 @@ class Stub:
         xa = _fresh_point(n, tag + "a", box)
         fun(xa)
         self.log.append(dict(x0=list(x0), xf=xf, fun=ft, f0=f0t, method=method, bounds=box))
-        return _Result(x=xf, fun=ff, jac=g, success=self.success, nit=1, nfev=4, hess_inv=np.eye(n), message="stub")
+        fun_reported = ff
+        if method == "L-BFGS-B" and not self.success:
+            # scipy's L-BFGS-B after an ABNORMAL termination (line search failure) can report the value of a trial point
+            # together with the previous iterate (reproduced with scipy 1.18.1): fun is then not objective(x*)
+            fun_reported = self._val(fm)
+        res = _Result(x=xf, fun=fun_reported, success=self.success, nit=1, nfev=4, message="stub")
+        if method != "Nelder-Mead":
+            res["jac"] = g
+        if method == "Newton-CG" and not self.success:
+            res["jac"] = None
+        if method not in NO_HESS_INV:
+            res["hess_inv"] = np.eye(n)
+        return res
 
 
 def _minuit_module(stub):
@@ -337,10 +363,13 @@ def _install(stub):
     return undo
 
 
-def _fit_once(fcn, method):
+def _fit_once(fcn, method, grad_scale=None):
     from tf_pwa.applications import fit
 
-    return fit(fcn=fcn, method=method, bounds_dict=dict(BOUNDS), maxiter=3, improve=False)
+    kw = {}
+    if grad_scale is not None:
+        kw["grad_scale"] = grad_scale
+    return fit(fcn=fcn, method=method, bounds_dict=dict(BOUNDS), maxiter=3, improve=False, **kw)
 
 
 def _check(ss, tag, key, F, vm, fcn, res, start_nll, th, pay):
@@ -374,7 +403,7 @@ def _check(ss, tag, key, F, vm, fcn, res, start_nll, th, pay):
     ss.prove("state.bounds.b[%s]" % tag, F, T.lt(st["b"], T.const(BOUNDS["b"][0], "R")), key=key + ".bounds", payload=pay, timeout=60, describe="b >= 0.5 after the fit")
 
 
-def _explore(ss, tag, key, methods, success, payload_extra):
+def _explore(ss, tag, key, methods, success, payload_extra, scaled=False):
     from symx import fork
 
     def run():
@@ -382,10 +411,15 @@ def _explore(ss, tag, key, methods, success, payload_extra):
         undo = _install(stub)
         try:
             pdf, vm, fcn, th = _bed()
+            gs = None
+            if scaled:
+                gs = S.real("grad_scale")
+                S.assume(gs > Fr(1, 100))
+                S.assume(gs < 100)
             start = _nll_now(fcn)
             outs = []
             for m in methods:
-                res = _fit_once(fcn, m)
+                res = _fit_once(fcn, m, gs)
                 outs.append((m, res, _state(vm), _nll_now(fcn)))
             return pdf, vm, fcn, th, start, outs, stub
         finally:
@@ -420,6 +454,11 @@ def _explore(ss, tag, key, methods, success, payload_extra):
 
 def job_fit(ss, method, success, nfit):
     _explore(ss, "%s,%s" % (method, "ok" if success else "fail"), "fit." + method, [method] * nfit, success, {})
+
+
+def job_fit_scaled(ss, method, success):
+    """grad_scale is an argument of ConfigLoader.fit next to method and maxiter: any positive value"""
+    _explore(ss, "%s,%s,grad_scale" % (method, "ok" if success else "fail"), "fit_scaled." + method, [method], success, {"grad_scale": True}, scaled=True)
 
 
 def job_fit2(ss, m1, m2):
